@@ -117,6 +117,13 @@ OpFits(k, c, es, rs, e) ==
          /\ 48 + FoldLeft(LAMBDA acc, x : acc + (IF x.op \in {"add_pci_range", "add_mmio_endpoint"} THEN 24 ELSE IF IsAdd(x) THEN 16 ELSE 0), 0, es) <= 65535
          /\ (e.op \in {"add_virtio_pci_iommu"} => PciFits(e.a.pci))
          /\ (e.op = "add_pci_range" => PciFits(e.a.first) /\ PciFits(e.a.last))
+    [] e.op = "set_distance" -> e.a.a < c.n /\ e.a.b < c.n                                   \* matrix indices in range
+    [] e.op = "add_system_locality" ->
+         \A i \in 1..Len(CallsOf(e)) : LET cl == CallsOf(e)[i] IN
+           /\ (cl.o = "set_initiator_value" => cl.a.idx < e.a.ni)
+           /\ (cl.o = "set_target_value" => cl.a.idx < e.a.nt)
+           /\ (cl.o = "set_entry_value" => cl.a.i < e.a.ni /\ cl.a.j < e.a.nt)
+    [] e.op = "add_fixed_memory" -> NCalls(e, "add_target") = WaysNum[e.a.ways]              \* one target per interleave way
     [] e.op = "add_imsic" -> ~HasOp(es, "add_imsic")
     [] e.op = "set_log_area" -> ~HasOp(es, "set_log_area")
     [] e.op = "add_generic_initiator" -> (e.a.handle.t = "pci" => PciFits(e.a.handle))
